@@ -41,6 +41,8 @@ def parseBool (s : String) : Option Bool := if s == "1" then some true else if s
 
 def parseAct : List String → Option Act
   | ["reset", c, s] => do pure (.reset (← parseInt c) (← parseInt s))
+  | ["ereset", c, s] => do pure (.ereset (← parseInt c) (← parseInt s))
+  | ["ack"] => some .ack
   | ["treset", c, s] => do pure (.treset (← parseInt c) (← parseInt s))
   | ["req", sid, kind] => do pure (.req (← parseNat sid) (← parseNat kind))
   | ["rhdr", sid, _, es] => do pure (.rhdr (← parseNat sid) (← parseBool es))
